@@ -272,8 +272,21 @@ impl Property for C01 {
     }
     fn signatures(c: &Case) -> Vec<&'static str> {
         // the reader hang is excluded inside the case (reader entry points are skipped for such
-        // input); nothing else is excluded
-        let _ = c;
+        // input). Open finding `c01-unoptimized-build-stack`: in an unoptimized build (the run of
+        // `./check C01` with VCHECK_PROFILE=dev) block nesting beyond a few hundred levels
+        // overflows an 8 MiB stack although the default depth budget (2000) is in force.
+        if std::env::var("VCHECK_PROFILE").as_deref() == Ok("dev") {
+            if let Input::Gen(f, n) = &c.input {
+                let levels = match f.as_str() {
+                    "block-seq-nest" | "block-map-nest" | "complex-key-nest" | "anchored-nest" | "alias-in-deep-nest" => *n,
+                    "alias-chained-nests" => *n * 8,
+                    _ => 0,
+                };
+                if levels > 500 {
+                    return vec!["deep_nest_unoptimized_build"];
+                }
+            }
+        }
         vec![]
     }
     fn shrink(c: &Case) -> Vec<Case> {
